@@ -8,12 +8,14 @@ or model class is ever instantiated: calls to in-package classes fold to an
 inert `Inst` record.
 """
 import ast
+import collections as _collections
 import datetime as _dt
 import re as _re
 import itertools
 import operator
 
 from .tree import AnalysisError
+from .soupmodel import HostModel, ModelError
 
 _BIN = {
     ast.Add: operator.add, ast.Sub: operator.sub, ast.Mult: operator.mul, ast.Div: operator.truediv,
@@ -62,6 +64,12 @@ def _isinstance(v, t):
             return getattr(importlib.import_module(mod_), nm)          # stdlib type, used for isinstance only
         return x
     ts = tuple(conv(x) for x in ts)
+    if any(isinstance(x, EnumClass) for x in ts):
+        if any(isinstance(x, EnumClass) and isinstance(v, EnumMember) and v.cls is x for x in ts):
+            return True
+        ts = tuple(x for x in ts if not isinstance(x, EnumClass))
+        if not ts:
+            return False
     if any(isinstance(x, ClassRef) for x in ts):
         # in-package classes: decided on class-backed stubs / instances by the MRO
         for x in ts:
@@ -73,7 +81,7 @@ def _isinstance(v, t):
                 return True
         return False
     if not all(isinstance(x, type) for x in ts):
-        raise AnalysisError("constfold: isinstance against a non-builtin type")
+        raise AnalysisError(f"constfold: isinstance against a non-builtin type {ts!r:.80}")
     return isinstance(v, ts)
 
 
@@ -84,6 +92,9 @@ _BUILTINS = {
     "any": any, "all": all, "reversed": reversed, "chr": chr, "ord": ord, "round": round,
     "True": True, "False": False, "None": None, "isinstance": _isinstance, "repr": repr,
     "divmod": divmod, "pow": pow, "format": format, "next": _next, "iter": list,
+    "hash": hash, "id": id, "type": lambda v: _type_of(v),
+    "callable": lambda v: callable(v) or isinstance(v, (FuncRef, ClassRef)) or (
+        isinstance(v, tuple) and v[:1] in (("bound",), ("lambda",), ("closure",))),
 }
 _SAFE_METHODS = {
     str: {"join", "lower", "upper", "strip", "lstrip", "rstrip", "split", "replace", "startswith",
@@ -97,6 +108,7 @@ _SAFE_METHODS = {
     tuple: {"index", "count"},
     float: {"is_integer", "hex", "as_integer_ratio"},
     _dt.timedelta: {"total_seconds"},
+    _collections.deque: {"append", "appendleft", "pop", "popleft", "clear", "extend", "count", "copy"},
     int: {"bit_length"},
     set: {"add", "union", "update", "copy", "discard"},
     frozenset: {"union"},
@@ -144,6 +156,12 @@ class EnumMember:
     def __repr__(self):
         return f"{self.cls.name}.{self.name}"
 
+    def __deepcopy__(self, memo):
+        return self            # enum members are singletons
+
+    def __copy__(self):
+        return self
+
     def __hash__(self):
         return hash((self.cls.name, self.name))
 
@@ -157,6 +175,9 @@ class EnumClass:
         self.members = []
         for n, v in members:
             self.members.append(EnumMember(self, n, v))
+
+    def __deepcopy__(self, memo):
+        return self
 
     def __iter__(self):
         return iter(self.members)
@@ -201,12 +222,50 @@ class Stub:
         return f"<stub {self.name}>"
 
     def __bool__(self):
-        if "__list__" in self.attrs:
-            return bool(self.attrs["__list__"])
+        ok, v = self._dunder("__bool__")
+        if ok:
+            return bool(v)
+        ok, v = self._dunder("__len__")
+        if ok:
+            return bool(v)
+        if self._container() is not None:
+            return bool(self._container())
         if self.cls is not None and (self.cls.find_method("__bool__") is not None or self.cls.find_method("__len__") is not None):
             # the class defines its own truth value: Python's default would be a wrong answer, not a refusal
             raise AnalysisError(f"constfold: truth value of {self!r} is defined by its class (not folded)")
         return True
+
+    def _binary(name):
+        def op(self, other):
+            ok, v = self._dunder(name, other)
+            return v if ok else NotImplemented       # Python then raises TypeError, as it would on the real object
+        op.__name__ = name
+        return op
+    for _n in ("add", "radd", "sub", "rsub", "mul", "rmul", "truediv", "rtruediv", "floordiv", "mod", "lt", "le", "gt", "ge",
+               "iadd", "isub", "imul"):
+        locals()[f"__{_n}__"] = _binary(f"__{_n}__")
+    del _n, _binary
+
+    def __neg__(self):
+        ok, v = self._dunder("__neg__")
+        if ok:
+            return v
+        raise TypeError(f"bad operand type for unary -: {self!r}")
+
+    def __str__(self):
+        for name in ("__str__", "__repr__"):
+            ok, v = self._dunder(name)
+            if ok:
+                return v
+        if self.cls is not None and Stub._active is not None:
+            raise AnalysisError(f"constfold: text of {self!r} is the default object representation (address dependent)")
+        return self.__repr__()
+
+    def __format__(self, spec):
+        ok, v = self._dunder("__format__", spec)
+        if ok:
+            return v
+        return format(self.__str__(), spec)
 
     def __deepcopy__(self, memo):
         import copy
@@ -215,20 +274,79 @@ class Stub:
         new.attrs = copy.deepcopy(self.attrs, memo)
         return new
 
-    def __iter__(self):
+    _active = None          # the Folder currently evaluating: lets host iteration / truth tests fold the class's dunders
+
+    def _dunder(self, name, *args):
+        """fold the class's own special method, if it has one: (True, value) or (False, None)"""
+        m = self.cls.find_method(name) if self.cls is not None else None
+        if m is None or Stub._active is None:
+            return False, None
+        return True, Stub._active.call_function(m, list(args), {}, self_value=self)
+
+    def _container(self):
         if "__list__" in self.attrs:
-            return iter(list(self.attrs["__list__"]))
+            return self.attrs["__list__"]
+        if "__dict__" in self.attrs:
+            return self.attrs["__dict__"]
+        return None
+
+    def __iter__(self):
+        ok, v = self._dunder("__iter__")
+        if ok:
+            return iter(list(v))
+        c = self._container()
+        if c is not None:
+            return iter(list(c))
         raise TypeError(f"{self!r} is not iterable")
 
     def __len__(self):
-        if "__list__" in self.attrs:
-            return len(self.attrs["__list__"])
+        ok, v = self._dunder("__len__")
+        if ok:
+            return v
+        c = self._container()
+        if c is not None:
+            return len(c)
         raise TypeError(f"{self!r} has no len()")
 
     def __getitem__(self, i):
-        if "__list__" in self.attrs:
-            return self.attrs["__list__"][i]
+        c = self._container()
+        if c is not None:
+            return c[i]
         raise TypeError(f"{self!r} is not subscriptable")
+
+    def __contains__(self, x):
+        c = self._container()
+        if c is not None:
+            return x in c
+        raise TypeError(f"{self!r} is not a container")
+
+    def __eq__(self, other):
+        if self is other:
+            return True
+        ok, v = self._dunder("__eq__", other)
+        if ok:
+            return bool(v)
+        if self.cls is not None and self.cls.find_method("__eq__") is not None:
+            # the class defines equality: identity would be a wrong answer, not a refusal (the evaluator
+            # folds __eq__ itself for == / != ; this is reached only from host containers)
+            raise AnalysisError(f"constfold: equality of {self!r} is defined by its class (not folded here)")
+        if isinstance(other, Stub) and self._container() is not None and other._container() is not None:
+            return self._container() == other._container()
+        c = self._container()
+        if c is not None and isinstance(other, (list, dict)):
+            return c == other
+        return False
+
+    def __ne__(self, other):
+        return not self.__eq__(other)
+
+    def __hash__(self):
+        ok, v = self._dunder("__hash__")
+        if ok:
+            return v
+        if self.cls is not None and (self.cls.find_method("__hash__") is not None or self.cls.find_method("__eq__") is not None):
+            raise AnalysisError(f"constfold: hash of {self!r} is defined by its class (not folded)")
+        return id(self)
 
     @classmethod
     def match(cls, groups):
@@ -247,10 +365,34 @@ class FuncRef:
     def __init__(self, fn):
         self.fn = fn
 
+    def __deepcopy__(self, memo):
+        return self
+
 
 class ClassRef:
     def __init__(self, cls):
         self.cls = cls
+
+    def __eq__(self, other):
+        return isinstance(other, ClassRef) and other.cls is self.cls
+
+    def __ne__(self, other):
+        return not self.__eq__(other)
+
+    def __hash__(self):
+        return id(self.cls)
+
+    def __deepcopy__(self, memo):
+        return self
+
+
+def _type_of(v):
+    """type(x): the class of a folded object (comparable with == / is-by-value), the Python type of a plain value"""
+    if isinstance(v, Stub) and v.cls is not None:
+        return ClassRef(v.cls)
+    if isinstance(v, (Stub, Inst)):
+        raise AnalysisError("constfold: type() of an object without a folded class")
+    return type(v)
 
 
 class FoldRaise(AnalysisError):
@@ -278,9 +420,12 @@ class _Return(Exception):
 
 
 class Folder:
-    def __init__(self, index, fuel=2_000_000):
+    def __init__(self, index, fuel=2_000_000, environ=None):
         self.index = index
         self.fuel = fuel
+        # the process environment the folded program sees: None = no variable is set (documented defaults);
+        # a string = EVERY variable is set to that value (the "configured" world of a configuration sweep)
+        self.environ = environ
         self._mod_env = {}
         self._in_progress = set()
 
@@ -482,6 +627,8 @@ class Folder:
                 except AnalysisError:
                     fr.exc_args = None
             raise fr
+        elif isinstance(st, ast.Global):
+            e.global_names = tuple(set(getattr(e, "global_names", ())) | set(st.names))
         else:
             raise AnalysisError(f"constfold: unsupported statement {type(st).__name__}")
 
@@ -496,11 +643,26 @@ class Folder:
                 self._assign(tt, vv, e)
         elif isinstance(t, ast.Attribute):
             obj = self._eval(t.value, e)
+            if isinstance(obj, HostModel):
+                try:
+                    setattr(obj, t.attr, v)
+                except ModelError as ex:
+                    raise AnalysisError(f"constfold: {type(obj).__name__}.{t.attr} = ...: {ex}")
+                return
             if not isinstance(obj, Stub):
                 raise AnalysisError("constfold: attribute store on a non-stub object")
             obj.attrs[t.attr] = v
         elif isinstance(t, ast.Subscript):
             obj = self._eval(t.value, e)
+            if isinstance(obj, Stub) and obj._container() is not None:
+                m = obj.cls.find_method("__setitem__") if obj.cls is not None else None
+                if m is not None:
+                    self.call_function(m, [self._eval(t.slice, e), v], {}, self_value=obj)
+                    return
+                obj = obj._container()
+            if isinstance(obj, HostModel):
+                obj[self._eval(t.slice, e)] = v
+                return
             if not isinstance(obj, (dict, list)):
                 raise AnalysisError("constfold: subscript store on non-container")
             obj[self._eval(t.slice, e)] = v
@@ -563,6 +725,16 @@ class Folder:
                 if isinstance(r, EnumClass) and isinstance(op, (ast.In, ast.NotIn)):
                     res = l in r.members
                     res = res if isinstance(op, ast.In) else not res
+                elif isinstance(op, (ast.Eq, ast.NotEq)) and (
+                        (isinstance(l, Stub) and l.cls is not None and l.cls.find_method("__eq__") is not None) or
+                        (isinstance(r, Stub) and r.cls is not None and r.cls.find_method("__eq__") is not None)):
+                    a_, b_ = (l, r) if isinstance(l, Stub) and l.cls is not None and l.cls.find_method("__eq__") is not None else (r, l)
+                    ne = a_.cls.find_method("__ne__") if isinstance(op, ast.NotEq) else None
+                    if ne is not None:
+                        res = bool(self.call_function(ne, [b_], {}, self_value=a_))
+                    else:
+                        res = bool(self.call_function(a_.cls.find_method("__eq__"), [b_], {}, self_value=a_))
+                        res = res if isinstance(op, ast.Eq) else not res
                 else:
                     res = _CMP[type(op)](l, r)
                 if not res:
@@ -583,11 +755,13 @@ class Folder:
                 if m is None:
                     raise AnalysisError("constfold: enum member lookup failed")
                 return m
-            if isinstance(obj, Stub) and "__list__" in obj.attrs:
+            if isinstance(obj, Stub) and obj._container() is not None:
                 m = obj.cls.find_method("__getitem__") if obj.cls is not None else None
                 if m is not None:
                     return self.call_function(m, [self._eval(x.slice, e)], {}, self_value=obj)
-                return obj.attrs["__list__"][self._eval(x.slice, e)]
+                return obj._container()[self._eval(x.slice, e)]
+            if isinstance(obj, HostModel):
+                return obj[self._eval(x.slice, e)]
             if not isinstance(obj, (dict, list, tuple, str)):
                 raise AnalysisError(f"constfold: subscript on {type(obj).__name__}")
             return obj[self._eval(x.slice, e)]
@@ -630,6 +804,15 @@ class Folder:
             return ("lambda", x, e)
         raise AnalysisError(f"constfold: unsupported expression {type(x).__name__}")
 
+    def _kwargs(self, x, e):
+        kw = {}
+        for k in x.keywords:
+            if k.arg is None:
+                kw.update(self._eval(k.value, e))       # **mapping
+            else:
+                kw[k.arg] = self._eval(k.value, e)
+        return kw
+
     def _elts(self, elts, e):
         out = []
         for el in elts:
@@ -666,15 +849,27 @@ class Folder:
             if obj.cls is not None:
                 c, v = obj.cls.find_class_attr(x.attr)
                 if c is not None:
-                    return self._eval(v, _Env(self, c.module, self.module_env(c.module), {}))
+                    cache = self.__dict__.setdefault("_class_attr_values", {})
+                    k_ = (id(c), x.attr)
+                    if k_ not in cache:
+                        cache[k_] = self._eval(v, _Env(self, c.module, self.module_env(c.module), {}))
+                    return cache[k_]
                 m = obj.cls.find_method(x.attr)
                 if m is not None and m.kind == "property":
                     return self.call_function(m, [], {}, self_value=obj)
                 if m is not None:
                     return ("bound", m, obj)
             raise AnalysisError(f"constfold: attribute {x.attr} of {obj!r}")
-        import datetime as _dt
+        if isinstance(obj, HostModel):
+            try:
+                return getattr(obj, x.attr)
+            except ModelError as ex:
+                raise AnalysisError(f"constfold: {type(obj).__name__}.{x.attr}: {ex}")
+            except AttributeError:
+                raise AnalysisError(f"constfold: {type(obj).__name__}.{x.attr} is outside the model")
         if isinstance(obj, _dt.timedelta) and x.attr in ("days", "seconds", "microseconds"):
+            return getattr(obj, x.attr)
+        if isinstance(obj, tuple) and hasattr(obj, "_fields") and x.attr in obj._fields:
             return getattr(obj, x.attr)
         if isinstance(obj, EnumClass):
             m = obj.by_name(x.attr)
@@ -741,12 +936,22 @@ class Folder:
                     if f.attr == "extend":
                         args = [list(args[0])]
                     return getattr(selfv.attrs["__list__"], f.attr)(*args)
+                if m is None and isinstance(selfv, Stub) and "__dict__" in selfv.attrs \
+                        and f.attr in ("__init__", "__setitem__", "__getitem__", "__contains__", "get", "pop", "update",
+                                       "setdefault", "keys", "values", "items", "__len__", "__iter__", "clear", "__delitem__"):
+                    args = self._elts(x.args, e)
+                    kw = self._kwargs(x, e)
+                    if f.attr == "__init__":
+                        selfv.attrs["__dict__"] = dict(*args, **kw)
+                        return None
+                    r_ = getattr(selfv.attrs["__dict__"], f.attr)(*args, **kw)
+                    return list(r_) if f.attr in ("keys", "values", "items", "__iter__") else r_
                 if m is None:
                     if f.attr == "__init__":
                         return None
                     raise AnalysisError(f"constfold: super().{f.attr} not found")
                 args = self._elts(x.args, e)
-                kw = {k.arg: self._eval(k.value, e) for k in x.keywords}
+                kw = self._kwargs(x, e)
                 return self.call_function(m, args, kw, self_value=selfv)
             if isinstance(f.value, ast.Name) and f.value.id == "list" and not e.has("list") \
                     and f.attr in ("__getitem__", "__len__", "__iter__", "__contains__", "__add__", "__mul__", "append", "extend"):
@@ -760,17 +965,36 @@ class Folder:
             obj = self._eval(f.value, e)
             if isinstance(obj, Stub):
                 args = self._elts(x.args, e)
-                kw = {k.arg: self._eval(k.value, e) for k in x.keywords}
+                kw = self._kwargs(x, e)
                 if f.attr in obj.methods:
                     return obj.methods[f.attr](*args, **kw)
                 m = obj.cls.find_method(f.attr) if obj.cls is not None else None
                 if m is not None:
                     return self.call_function(m, args, kw, self_value=obj)
+                if f.attr in obj.attrs:
+                    return self._apply(obj.attrs[f.attr], x, e)         # a callable stored in an attribute
+                if "__dict__" in obj.attrs and f.attr in _SAFE_METHODS[dict] | {"clear"}:
+                    r_ = getattr(obj.attrs["__dict__"], f.attr)(*args, **kw)      # inherited from dict
+                    return list(r_) if f.attr in ("keys", "values", "items") else r_
                 if "__list__" in obj.attrs and f.attr in _SAFE_METHODS[list] | {"clear", "remove"}:
                     if f.attr == "extend":
                         args = [list(args[0])]
                     return getattr(obj.attrs["__list__"], f.attr)(*args, **kw)     # inherited from list
                 raise AnalysisError(f"constfold: method {f.attr} of {obj!r}")
+            if isinstance(obj, HostModel):
+                args = [self._hostify(a) for a in self._elts(x.args, e)]
+                kw = {k_: self._hostify(v_) for k_, v_ in self._kwargs(x, e).items()}
+                try:
+                    m_ = getattr(obj, f.attr)
+                except AttributeError:
+                    raise AnalysisError(f"constfold: {type(obj).__name__}.{f.attr} is outside the model")
+                if m_ is None or not callable(m_):
+                    raise AnalysisError(f"constfold: {type(obj).__name__}.{f.attr} is not a method of the model")
+                try:
+                    r_ = m_(*args, **kw)
+                except ModelError as ex:
+                    raise AnalysisError(f"constfold: {type(obj).__name__}.{f.attr}: {ex}")
+                return list(r_) if f.attr in ("keys", "values", "items") else r_
             if isinstance(obj, Inst) and obj.cls.find_method(f.attr) is not None \
                     and obj.cls.find_method(f.attr).kind == "method":
                 # a method of a freshly constructed in-package object: construct it for real first
@@ -789,11 +1013,11 @@ class Folder:
                             st.attrs.clear()
                     obj._stub = st
                 args = self._elts(x.args, e)
-                kw = {k.arg: self._eval(k.value, e) for k in x.keywords}
+                kw = self._kwargs(x, e)
                 return self.call_function(obj.cls.find_method(f.attr), args, kw, self_value=st)
             if isinstance(obj, RegexConst) and f.attr in _RE_FUNCS:
                 args = self._elts(x.args, e)
-                kw = {k.arg: self._eval(k.value, e) for k in x.keywords}
+                kw = self._kwargs(x, e)
                 return _re_apply(f.attr, [obj.pattern] + args, dict(kw, flags=obj.flags))
             if isinstance(obj, (ClassRef, EnumClass, Inst)):
                 tgt = self._attr(f, e)
@@ -801,7 +1025,7 @@ class Folder:
             for ty, names in _SAFE_METHODS.items():
                 if isinstance(obj, ty) and f.attr in names:
                     args = self._elts(x.args, e)
-                    kw = {k.arg: self._eval(k.value, e) for k in x.keywords}
+                    kw = {k_: self._hostify(v_) for k_, v_ in self._kwargs(x, e).items()}
                     return getattr(obj, f.attr)(*args, **kw)
             raise AnalysisError(f"constfold: method {f.attr} on {type(obj).__name__}")
         if isinstance(f, ast.Name) and f.id in ("getattr", "setattr", "hasattr") and not e.has(f.id) and x.args:
@@ -836,10 +1060,13 @@ class Folder:
                 return self._apply(e.get(f.id), x, e)
             if f.id in _BUILTINS and _BUILTINS[f.id] is not None:
                 args = self._elts(x.args, e)
-                kw = {k.arg: self._eval(k.value, e) for k in x.keywords}
+                kw = self._kwargs(x, e)
                 if f.id in ("list", "tuple", "sorted", "set", "len", "enumerate", "reversed") and args \
                         and isinstance(args[0], EnumClass):
                     args[0] = args[0].members
+                if f.id in ("sorted", "min", "max", "map", "filter", "any", "all", "sum"):
+                    args = [self._hostify(a) for a in args]
+                    kw = {k_: self._hostify(v_) for k_, v_ in kw.items()}
                 r = _BUILTINS[f.id](*args, **kw)
                 if f.id in ("zip", "enumerate", "reversed", "range"):
                     r = list(r)
@@ -850,7 +1077,13 @@ class Folder:
 
     def _external(self, dotted, x, e):
         args = self._elts(x.args, e)
-        kw = {k.arg: self._eval(k.value, e) for k in x.keywords}
+        kw = self._kwargs(x, e)
+        model = getattr(self, "external_models", {}).get(dotted)
+        if model is not None:
+            try:
+                return model(*args, **kw)          # a stand-in for a third-party class, supplied by the rule
+            except ModelError as ex:
+                raise AnalysisError(f"constfold: {dotted}: {ex}")
         if dotted == "re.compile":
             return RegexConst(args[0], args[1] if len(args) > 1 else kw.get("flags", 0))
         if dotted.startswith("re.") and dotted[3:] in _RE_FUNCS:
@@ -868,6 +1101,9 @@ class Folder:
                 empty = ast.Call(func=ast.Name(id="__factory__", ctx=ast.Load()), args=[], keywords=[])
                 tgt = args[0]
                 return collections.defaultdict(lambda: self._apply(tgt, empty, e))
+        if dotted == "collections.deque":
+            import collections
+            return collections.deque(*args, **kw)
         if dotted in ("collections.OrderedDict",):
             return dict(*args, **kw)         # insertion ordered, like every dict of the supported interpreters
         if dotted in ("fractions.Fraction", "decimal.Decimal", "math.floor", "math.ceil", "textwrap.fill", "textwrap.wrap",
@@ -879,10 +1115,13 @@ class Folder:
         if dotted == "itertools.product":
             return list(itertools.product(*args, **kw))
         if dotted == "os.getenv" or dotted == "os.environ.get":
-            # configuration read once at import: fold to the documented default
+            # configuration read once at import: fold to the documented default (or to the configured world's value)
+            if self.environ is not None:
+                return self.environ
             return args[1] if len(args) > 1 else None
         if dotted in ("collections.namedtuple",):
-            return ("namedtuple", args, kw)
+            import collections
+            return collections.namedtuple(*args, **kw)       # a plain record type
         if dotted.startswith("re.") and dotted.split(".")[1] in ("I", "IGNORECASE", "M", "MULTILINE", "S",
                                                                  "DOTALL", "U", "UNICODE", "X", "VERBOSE"):
             import re
@@ -900,17 +1139,22 @@ class Folder:
         if isinstance(tgt, EnumClass):
             return tgt.by_value(args[0])
         if isinstance(tgt, ClassRef):
-            if tgt.cls.name in getattr(self, "object_classes", ()):
+            oc = getattr(self, "object_classes", ())
+            if oc == "*" or tgt.cls.name in oc:
                 # a plain in-package value class a rule asked to have really constructed: run its __init__
                 obj = Stub(tgt.cls.name, {}, cls=tgt.cls)
                 ext = tgt.cls.external_bases()
                 if any(b_.split(".")[-1] == "list" for b_ in ext):
                     obj.attrs["__list__"] = []
+                if any(b_.split(".")[-1] in ("dict", "OrderedDict") for b_ in ext):
+                    obj.attrs["__dict__"] = {}
                 init = tgt.cls.find_method("__init__")
                 if init is not None:
                     self.call_function(init, args, kw, self_value=obj)
                 elif "__list__" in obj.attrs and args:
                     obj.attrs["__list__"] = list(args[0])
+                elif "__dict__" in obj.attrs and (args or kw):
+                    obj.attrs["__dict__"] = dict(*args, **kw)
                 return obj
             return Inst(tgt.cls, args, kw)
         if isinstance(tgt, FuncRef):
@@ -941,9 +1185,11 @@ class Folder:
                 ee.set(p, a)
             return self._eval(lam.body, ee)
         import types
+        if isinstance(tgt, type) and issubclass(tgt, tuple) and hasattr(tgt, "_fields"):
+            return tgt(*args, **kw)
         if isinstance(tgt, types.FunctionType):
             return tgt(*args, **kw)          # a stand-in supplied by the rule's stub (folded code cannot make one)
-        raise AnalysisError(f"constfold: call of {type(tgt).__name__}")
+        raise AnalysisError(f"constfold: call of {type(tgt).__name__} {str(tgt)[:80] if isinstance(tgt, tuple) else str()}")
 
     def _exc_subclass(self, name, handler_names, e):
         """is the in-package exception class `name` a subclass of one of handler_names?"""
@@ -954,6 +1200,14 @@ class Folder:
             return any(getattr(b, "name", b) in handler_names for b in c.mro())
         except Exception:
             return False
+
+    def _hostify(self, v):
+        """a folded callable as a host function (for sorted(key=...), map, filter, list.sort(key=...))"""
+        if isinstance(v, FuncRef) or (isinstance(v, tuple) and v[:1] in (("bound",), ("lambda",), ("closure",))):
+            return lambda *a: self.call_value(v, a)
+        if isinstance(v, ClassRef):
+            raise AnalysisError("constfold: a class used as a callback")
+        return v
 
     def call_value(self, tgt, args):
         """apply a folded callable (lambda, nested function, function reference) to Python values;
@@ -1026,6 +1280,7 @@ class Folder:
         if a.kwarg is not None:
             local[a.kwarg.arg] = {k_: v_ for k_, v_ in kw.items() if k_ not in params and k_ not in kwonly}
         self._depth = getattr(self, "_depth", 0) + 1
+        Stub._active = self
         if self._depth == 1:
             self.fuel = max(self.fuel, getattr(self, "fuel_per_call", 2_000_000))   # the bound is per top-level fold
         try:
@@ -1055,6 +1310,7 @@ class _Env:
         c = _Env(self.folder, self.mod, self.globals, {})
         c.parent = self
         c.owner = self.owner
+        c.global_names = getattr(self, "global_names", ())
         return c
 
     def has(self, name):
@@ -1087,8 +1343,8 @@ class _Env:
         raise AnalysisError(f"constfold: unbound name {name} in {self.mod.name}")
 
     def set(self, name, v):
-        if self.local is None:
-            self.globals[name] = v
+        if self.local is None or name in getattr(self, "global_names", ()):
+            self.globals[name] = v          # module level, or a name the function declared `global`
         else:
             self.local[name] = v
 
